@@ -32,7 +32,7 @@ def reexecute(binary, v, count=5, test='TestVerifMC'):
     return json.load(open(o))
 
 
-def run_mc(prop, tier, monitors, assumptions, rule, binary=None, extra_env=None, level='model_checking', pre_violations=(), extra_cov=None, t0=None):
+def run_mc(prop, tier, monitors, assumptions, rule, binary=None, extra_env=None, level='model_checking', pre_violations=(), extra_cov=None, t0=None, deep_quick=4, deep_thorough=5):
     t0 = t0 or time.time()
     binary = binary or build_mc()
     mons = ','.join(monitors)
@@ -102,6 +102,38 @@ def run_mc(prop, tier, monitors, assumptions, rule, binary=None, extra_env=None,
         res = run_level(alpha, nxt, bool(plan))
         all_results += res
 
+    # ---- deep tier: breadth-first search with the focused mutator alphabet from a few base scenarios,
+    # states deduplicated on the time-abstracted canonical key, to depth 3 (quick) / 5 (thorough)
+    deep_depth = int(os.environ.get('VERIF_DEEP_DEPTH', deep_quick if tier == 'quick' else deep_thorough))
+    deep_levels = []
+    deep_seen = set()
+    frontier = [{'Scenario': sc} for sc in ('three-users', 'services', 'chan-op-member', 'invite-only')]
+    deep_complete = True
+    for d in range(1, deep_depth + 1):
+        if not frontier:
+            break
+        if time.time() > deadline:
+            deep_complete = False
+            notes.append('deep tier: time budget reached before depth %d (%d frontier states not expanded)' % (d, len(frontier)))
+            break
+        lvl_res = run_level('focused', frontier, d < deep_depth)
+        all_results += lvl_res
+        nxt = []
+        for r in lvl_res:
+            for k in r.get('keys') or []:
+                deep_seen.add(k)
+        for r in lvl_res:
+            for n_ in r.get('next') or []:
+                if n_['key'] in deep_seen:
+                    continue
+                deep_seen.add(n_['key'])
+                nxt.append(n_['work'])
+        deep_levels.append({'depth': d, 'states_expanded': sum(r['states'] for r in lvl_res), 'transitions': sum(r['transitions'] for r in lvl_res), 'new_states': len(nxt)})
+        per_level.append({'level': 'deep-%d' % d, 'states': sum(r['states'] for r in lvl_res), 'transitions': sum(r['transitions'] for r in lvl_res), 'new_successor_states': len(nxt)})
+        frontier = nxt
+    if not deep_complete:
+        exhaustive = False
+
     for r in all_results:
         if not r.get('exhaustive', True):
             exhaustive = False
@@ -146,12 +178,13 @@ def run_mc(prop, tier, monitors, assumptions, rule, binary=None, extra_env=None,
         'mutator_transitions': sum(r['mutators'] for r in all_results),
         'traces_validated_against_impl': sum(r['replays'] for r in all_results),
         'levels': per_level,
+        'deep_tier': {'alphabet': 'focused mutator lines (53 client, 12+15n services) + DeleteSession', 'depth': deep_depth, 'levels': deep_levels, 'distinct_states': len(deep_seen), 'complete': deep_complete},
         'counters': counters,
         'samples': samples[:12],
         'exhaustive': exhaustive,
         'notes': notes,
         'rule': rule,
-        'bounds': 'scenarios x full alphabet (depth 1), mutator successors x %s alphabet (depth 2)%s' % (
+        'bounds': 'deep tier: BFS with the focused alphabet to depth %d from 4 base scenarios; ' % deep_depth + 'scenarios x full alphabet (depth 1), mutator successors x %s alphabet (depth 2)%s' % (
             'reduced' if tier == 'quick' else 'full', '' if tier == 'quick' else ', depth-2 mutator successors x reduced alphabet (depth 3)'),
     }
     if extra_cov:
